@@ -147,6 +147,7 @@ var richKeys = []string{
 	"~tilde!bang*(paren)", "UPPER/lower/MiXed", "日本語/キー", "a.b-c_d/e.f", "trailing.dot./x", "@at$dollar^caret`tick",
 	"[br]{ace}|pipe<lt>gt", "tab\tchar", "very/deeply/nested/key/with/many/segments/indeed/yes",
 	"reports/2024", "reports_2024", "reports-2024",
+	"lp/" + strings.Repeat("p", 210) + "-one", "lp/" + strings.Repeat("p", 210) + "-two",
 }
 
 // GenPlan generates the plan for one run of a property.
